@@ -9,7 +9,7 @@ for m in sorted(glob.glob(os.path.join(V, 'seeded', '*', 'meta.json'))):
     runs = d.get('checks_run', {})
     caught = d.get('caught_by', [])
     how = '; '.join('%s: %s' % (c, (r.get('detail') or r.get('violations') or r.get('engine_errors') or ['exit %s' % r.get('exit')])[0][:150]) for c, r in runs.items())
-    rows.append((name, d.get('summary', '')[:230], d.get('needs', '')[:230], ', '.join(caught) if caught else 'NOT caught', how))
+    rows.append((name, d.get('summary', '')[:230], d.get('needs', '')[:230], ', '.join(caught) if caught else ('NOT caught: ' + d['note_not_caught'] if d.get('note_not_caught') else 'NOT caught'), how))
 with open(os.path.join(V, 'seeded', 'README.md'), 'w') as f:
     f.write('# Seeded changes\n\nEach directory holds `patch.diff` (applies to /repo HEAD), the demonstration `demo.cpp` written by an independent\n'
             'sub-agent that never saw /verif, and `meta.json` (what it breaks, what it needs to manifest, what was run to confirm it:\n'
